@@ -256,3 +256,18 @@ def gen_splits(rng, n, mode=None):
         prev = c
     out.append(n - prev)
     return out
+
+
+def stagger_client(rng, client, p=0.5):
+    """Timing perturbation for generators whose ground truth does not depend on when bytes arrive: some `feed` steps (which let the
+    server run to quiescence before the client goes on) become `feed_nosettle` + `turns k`, so that the following bytes arrive k
+    scheduler turns into the server's reaction - between two of its awaits - instead of after it has finished reacting."""
+    out = []
+    n = len(client)
+    for i, st in enumerate(client):
+        if st[0] == "feed" and i < n - 1 and isinstance(st[1], (bytes, bytearray)) and rng.random() < p:
+            out.append(["feed_nosettle", st[1]])
+            out.append(["turns", rng.choice([0, 1, 1, 2, 3, 5, 8])])
+        else:
+            out.append(st)
+    return out
